@@ -135,6 +135,7 @@ def rules(fx, rep):
         rep.check(len(chain_fns) == 1, 'WIRE', '%s:one-chain' % g, 'one addition-chain helper', 'chain helpers: %s' % sorted(chain_fns), where)
 
         ntables = 1 if g == 'G1' else 4
+        res = merge_explicit_sign_fix(res)
         returns = [(p_, r_) for p_, r_, _ in res if isinstance(r_, exp.Agg)]
         diverges = [(p_, r_) for p_, r_, _ in res if isinstance(r_, tuple) and r_ and r_[0] == 'diverges']
         rep.check(len(returns) == (2 if g == 'G1' else 8), 'GUARD', '%s:returning-paths' % g,
@@ -243,6 +244,52 @@ def rules(fx, rep):
             ok = len(diverges) == 1 and all(l[1] == 0 for l in diverges[0][0].labels) and len(diverges[0][0].labels) == 8
             rep.check(ok, 'PANIC', 'G2:terminal-panic-only-after-all-trials', 'the only panic edge lies after all 4+4 trials failed; table completeness + candidate shape make that infeasible',
                       'panic edges: %r' % ([(len(d[0].labels), d[1]) for d in diverges],), where)
+
+
+def merge_explicit_sign_fix(res):
+    """`if y.sgn0() != t.sgn0() { y.negate() }` is the same sign fix as `y.negate_if(y.sgn0() ^ t.sgn0())`: two paths that
+    differ only in that comparison and in the sign of the returned y are folded into one path carrying the same
+    'negate_if' event (and the symbolic sign) that the combinator form produces."""
+    def sign_label(l):
+        x = l[0]
+        return isinstance(x, tuple) and len(x) >= 3 and x[0] in ('eq', 'ne') and all(isinstance(y_, tuple) and y_ and y_[0] == 'sgn0' for y_ in x[1:3])
+    groups = {}
+    out = []
+    for r in res:
+        pth, ret, outs = r
+        sl = [l for l in pth.labels if sign_label(l)]
+        if len(sl) != 1 or not isinstance(ret, exp.Agg) or len(ret.items) != 3:
+            out.append(r)
+            continue
+        key = repr([l for l in pth.labels if not sign_label(l)])
+        groups.setdefault(key, []).append((r, sl[0]))
+    for key, members in groups.items():
+        if len(members) != 2:
+            out.extend(m[0] for m in members)
+            continue
+        def differ(l):
+            return (l[1] != 0) == (l[0][0] == 'ne')
+        a, b = members
+        if differ(a[1]) == differ(b[1]):
+            out.extend(m[0] for m in members)
+            continue
+        neg, pos = (a, b) if differ(a[1]) else (b, a)
+        yn, yp = neg[0][1].items[1], pos[0][1].items[1]
+        same_rest = neg[0][1].items[0] == pos[0][1].items[0] and neg[0][1].items[2] == pos[0][1].items[2]
+        if not (isinstance(yn, Lin) and isinstance(yp, Lin) and same_rest and yn == yp.add(Lin({'-1': 1}))):
+            out.extend(m[0] for m in members)
+            continue
+        lab = pos[1][0]
+        sg_a, sg_b = lab[1], lab[2]
+        t_place = (('*', 1), ())
+        ysg = sg_b if sg_a[1] == t_place else sg_a
+        np_ = exp.Path()
+        np_.labels = [l for l in pos[0][0].labels if not sign_label(l)]
+        np_.events = list(pos[0][0].events) + [('negate_if', ysg[1], ('xor', sg_a, sg_b), lab[3] if len(lab) > 3 else None)]
+        items = list(pos[0][1].items)
+        items[1] = yp.add(Lin.atom('sign'))
+        out.append((np_, exp.Agg(items, pos[0][1].kind), pos[0][2]))
+    return out
 
 
 def check_tables(fx, rep, g, first_mults, second_mults, Z, where, path):
